@@ -2,7 +2,7 @@
 import ast
 
 from vstat.loader import AnalysisError
-from vstat.terms import builder, show, SELF, NONE, G, alts, walk, mentions, phi, strip_none
+from vstat.terms import builder, guarded_alts, show, SELF, NONE, G, alts, walk, mentions, phi, strip_none
 from vstat.guards import path_conditions
 from vstat.cfg import cfg_of
 from vstat.sigs import bind
@@ -75,7 +75,12 @@ def chain(prog, rep):
 
 def _rs_ok(t, formal=("param", "random_state")):
     conv = ("call", G("numpy.random.default_rng"), (formal,), ())
-    return all(a in (formal, conv) for a in alts(t))
+    out = True
+    for a in alts(t):
+        for lits, v in guarded_alts(a):
+            # None may stand for the caller's random_state only where that is None
+            out = out and (v in (formal, conv) or (v == NONE and ("isnone", formal) in lits))
+    return out
 
 
 def rng(prog, rep):
@@ -133,26 +138,32 @@ def rng(prog, rep):
             multi = len(sites) > 1 or in_loop
             if multi:
                 inst = f"{q}:single-generator"
-                good = []
-                for st, t in conversions:
-                    tg = st.targets[0]
-                    if not (isinstance(tg, ast.Name) and t[2] == (P("random_state"),)):
+                # every draw reads ONE name, bound outside every loop by the same definitions, whose value is
+                # default_rng(random_state) wherever random_state is not None (None / the formal itself only where it is None)
+                gb = builder(prog, fn, inline=False, guarded=True)
+                formal = P("random_state")
+                conv = ("call", G("numpy.random.default_rng"), (formal,), ())
+                names, defsets, good = set(), set(), True
+                for st, c, kind in sites:
+                    e = {k.arg: k.value for k in c.keywords if k.arg}.get("random_state")
+                    if not isinstance(e, ast.Name):
+                        good = False
                         continue
-                    if cfg.enclosing_loops(st):
-                        continue
-                    pc = path_conditions(prog, fn, b).of(st)
-                    if any(l not in (("not", ("isnone", P("random_state"))),) for l in pc):
-                        continue
-                    # the conversion (or its enclosing if) must dominate every draw
-                    anchor = st
-                    enc = cfg.enclosing(st)
-                    if enc:
-                        anchor = enc[0][0]
-                    if all(cfg.dominates(cfg.node(anchor), cfg.node(s[0])) for s in sites):
-                        # and every draw must read the converted name
-                        if all(isinstance({k.arg: k.value for k in s[1].keywords if k.arg}.get("random_state"), ast.Name)
-                               and {k.arg: k.value for k in s[1].keywords if k.arg}["random_state"].id == tg.id for s in sites):
-                            good.append(st)
+                    names.add(e.id)
+                    ds = [d for d in b.rd.reaching(e.id, cfg.node(st)) if d.kind != "del"]
+                    defsets.add(frozenset(d.idx for d in ds))
+                    if any(d.stmt is not None and cfg.enclosing_loops(d.stmt) for d in ds):
+                        good = False
+                    seen_conv = False
+                    for lits, v in guarded_alts(gb.term(e, st)):
+                        if v == conv:
+                            seen_conv = True
+                        elif v in (formal, NONE) and ("isnone", formal) in lits:
+                            pass
+                        else:
+                            good = False
+                    good = good and seen_conv
+                good = good and len(names) == 1 and len(defsets) == 1
                 rep.check(bool(good), "C07.rng", inst, fn.where(),
                           "one Generator is built from the seed before the per-dimension loop and used by every draw",
                           "a sampler that draws several times must convert random_state to ONE np.random.default_rng(random_state) outside the "
